@@ -48,11 +48,11 @@ theorem accepts_of_sat (E : EvalEnv) (hsig0 : ∀ k, E.sigOK k [] = false) (ctx 
     (h1000 : s.length ≤ MAX_STACK_SIZE) :
     accepts E ctx (opsOf ctx h160 false n) s = true := by
   obtain ⟨bs, _, _⟩ := (sound_s1 E ctx h160 hsig0 hH n h).1 hB
-  have hrun := bs s [] [] [] rfl hs
+  obtain ⟨v, hv, _, hrun⟩ := bs s [] [] [] rfl hs
   simp only [List.append_nil] at hrun
   unfold accepts
   rw [engineLimits_of_withinLimits ctx h160 hh n hshape hlim hops s h520 h1000, hrun]
-  rfl
+  simp [truthy_cast hv]
 
 theorem rejects_of_dsat (E : EvalEnv) (hsig0 : ∀ k, E.sigOK k [] = false) (ctx : Ctx)
     (h160 : Bytes → Bytes) (hH : ∀ k, E.hashF .hash160 k = h160 k) (n : Ms)
